@@ -29,7 +29,7 @@ EXTENDS NamesLaw, TLC, Json
 
 CONSTANTS MinN, MaxN, \* glyph counts MinN..MaxN
           MinRules,  \* a description has at least this many GSUB rules
-          PoolSel,   \* "tiny" | "full": the pool of given names
+          PoolSel,   \* "tiny" | "full" | "clash" | "own" | "first": the pool of given names
           Codes,     \* set of code points that may be mapped
           MaxRules,  \* number of GSUB rules 0..MaxRules
           RuleTypes, \* subset of {1, 3, 4}
@@ -108,10 +108,14 @@ AddName(x) == /\ given' = Append(given, x)
               /\ pcls' = FALSE
 
 \* two steps per glyph so that a random walk takes "missing" and "own" often
+\* PoolSel = "first": no choice -- glyphs 0 and 1 have their own names, all others have none (a font
+\* in which everything else has to be inferred through chains of rules)
 NameClass == /\ stage = "names" /\ ~pcls
-             /\ \/ AddName(<<>>)
-                \/ AddName(Own(Len(given)))
-                \/ pcls' = TRUE /\ UNCHANGED <<given, stage>>
+             /\ IF PoolSel = "first"
+                  THEN AddName(IF Len(given) <= 1 THEN Own(Len(given)) ELSE <<>>)
+                  ELSE \/ AddName(<<>>)
+                       \/ AddName(Own(Len(given)))
+                       \/ pcls' = TRUE /\ UNCHANGED <<given, stage>>
              /\ UNCHANGED <<n, todo, cm, rules, prt, kind, keep, d1, cmf, txt>>
 
 NamePool == /\ stage = "names" /\ pcls
